@@ -512,6 +512,8 @@ def registration_guarded(model: Model, run: Run, rule: str = "I6-registration-gu
     def is_list(e, fn, lnames) -> bool:
         if isinstance(e, ast.Call) and isinstance(e.func, ast.Name) and e.func.id in ("enumerate", "iter", "list", "tuple", "reversed") and e.args:
             return is_list(e.args[0], fn, lnames)
+        if isinstance(e, ast.Subscript) and isinstance(e.slice, ast.Slice):
+            return is_list(e.value, fn, lnames)          # a part of the list: read as a search of it (whether a part is enough is judged separately)
         return norm(e) in lnames
 
     def search_kind(e, fn, lnames, depth=0):
@@ -660,6 +662,41 @@ def registration_guarded(model: Model, run: Run, rule: str = "I6-registration-gu
                     raise AnalysisError(f"{fi.qualname}: the duplicate test `{norm(g.test)[:60]}` is fed by a search this rule does not read")
                 if kind == "index" and form == "truth":
                     ok, why = False, f"the search yields a position and is tested with `if {norm(g.test)[:30]}:` - position 0 is a hit but false, so a clash with the first registered type is accepted"
+        if ok and site_fn is not None:
+            # what the search looks at: the whole list, and the id of each entry against the id of the new type
+            scopes = [site_fn] + [f_ for f_ in model.functions.values() if f_.module == site_fn.module and not isinstance(f_.node, ast.Lambda) and f_ is not site_fn and
+                                  any(isinstance(c_, ast.Call) and isinstance(c_.func, (ast.Name, ast.Attribute)) and norm(c_.func).split(".")[-1] == f_.name for c_ in walk_no_nested(site_fn.node))]
+            for sc in scopes:
+                names_sc = lnames if sc is site_fn else {p_ for p_ in sc.params()}
+                for x in walk_no_nested(sc.node):
+                    gens = x.generators if isinstance(x, (ast.GeneratorExp, ast.ListComp)) else []
+                    iters = [(g.iter, g.ifs) for g in gens] + ([(x.iter, [t_.test for t_ in ast.walk(x) if isinstance(t_, ast.If)])] if isinstance(x, ast.For) else [])
+                    for it, conds in iters:
+                        base = it
+                        while isinstance(base, ast.Call) and isinstance(base.func, ast.Name) and base.func.id in ("enumerate", "iter", "reversed") and base.args:
+                            base = base.args[0]
+                        sliced = isinstance(base, ast.Subscript) and isinstance(base.slice, ast.Slice) and norm(base.value) in names_sc and \
+                            (base.slice.lower is not None or base.slice.upper is not None)
+                        if sliced and sc is site_fn:
+                            ok, why = False, f"the duplicate search runs over `{norm(base)[:40]}`, a part of the list: a clash with an entry outside that part is accepted"
+                        if norm(base) not in names_sc and not sliced:
+                            continue
+                        for cnd in conds:
+                            for cmp_ in [y for y in ast.walk(cnd) if isinstance(y, ast.Compare) and len(y.ops) == 1 and isinstance(y.ops[0], ast.Eq)]:
+                                l_, r_ = cmp_.left, cmp_.comparators[0]
+                                def idexpr(e_):
+                                    if isinstance(e_, ast.Attribute):
+                                        return e_.attr
+                                    if isinstance(e_, ast.Call) and isinstance(e_.func, ast.Name) and e_.func.id == "getattr" and len(e_.args) >= 2:
+                                        return norm(e_.args[1])
+                                    if isinstance(e_, ast.Call) and isinstance(e_.func, ast.Name) and len(e_.args) == 1:
+                                        return "call:" + e_.func.id          # a getter applied to the entry
+                                    if isinstance(e_, ast.Name):
+                                        return None
+                                    return "?"
+                                il, ir = idexpr(l_), idexpr(r_)
+                                if il is None and ir is None and sc is site_fn:
+                                    ok, why = False, f"the duplicate search compares the types themselves (`{norm(cmp_)[:40]}`), not their ids: a different class that re-uses a registered id is accepted"
         run.ob(rule, ok, {"method": fi.name})
         if not ok:
             run.fail(Finding(rule, fi.qualname, why[:80], f"{fi.name}: {why}", model.loc(SESSION_MOD, fi.node)))
